@@ -31,46 +31,58 @@ LOG = []
 _registered = {}
 
 
-def register():
-    """Defines the recording classes once per process (they resolve by class name like built-ins)."""
-    if _registered:
-        return _registered
+def _define(prefix):
+    """Defines a recording field format <prefix>FieldFormat and check <prefix>Check (direct subclasses of the abstract
+    bases, like any plugin); they resolve by class name like built-ins."""
     from cutplace import checks, errors, fields
 
-    class RecFieldFormat(fields.AbstractFieldFormat):
-        def __init__(self, field_name, is_allowed_to_be_empty, length, rule, data_format):
-            super().__init__(field_name, is_allowed_to_be_empty, length, rule, data_format, empty_value="")
+    def field_init(self, field_name, is_allowed_to_be_empty, length, rule, data_format):
+        fields.AbstractFieldFormat.__init__(self, field_name, is_allowed_to_be_empty, length, rule, data_format, empty_value="")
 
-        def validated_value(self, value):
-            LOG.append(["validated_value", self.field_name, value])
-            if value.startswith("REJ"):
-                raise errors.FieldValueError("recording field rejects %r" % value)
-            return value
+    def validated_value(self, value):
+        LOG.append(["validated_value", self.field_name, value])
+        if value.startswith("REJ"):
+            raise errors.FieldValueError("recording field rejects %r" % value)
+        return value
 
-    class RecCheck(checks.AbstractCheck):
-        def __init__(self, description, rule, available_field_names, location_of_definition=None):
-            super().__init__(description, rule, available_field_names, location_of_definition)
-            self.behaviour = rule.strip()
+    def check_init(self, description, rule, available_field_names, location_of_definition=None):
+        checks.AbstractCheck.__init__(self, description, rule, available_field_names, location_of_definition)
+        self.behaviour = rule.strip()
 
-        def reset(self):
-            LOG.append(["reset", self.description])
+    def reset(self):
+        LOG.append(["reset", self.description])
 
-        def check_row(self, field_name_to_value_map, location):
-            LOG.append(["check_row", self.description, [field_name_to_value_map[n] for n in self.field_names]])
-            if self.behaviour == "veto" and any(v.startswith("VETO") for v in field_name_to_value_map.values()):
-                raise errors.CheckError("recording check %s vetoes the row" % self.description, location)
+    def check_row(self, field_name_to_value_map, location):
+        LOG.append(["check_row", self.description, [field_name_to_value_map[n] for n in self.field_names]])
+        if self.behaviour == "veto" and any(v.startswith("VETO") for v in field_name_to_value_map.values()):
+            raise errors.CheckError("recording check %s vetoes the row" % self.description, location)
 
-        def check_at_end(self, location):
-            LOG.append(["check_at_end", self.description])
-            if self.behaviour == "fail":
-                raise errors.CheckError("recording check %s fails at the end" % self.description, location)
+    def check_at_end(self, location):
+        LOG.append(["check_at_end", self.description])
+        if self.behaviour == "fail":
+            raise errors.CheckError("recording check %s fails at the end" % self.description, location)
 
-        def cleanup(self):
-            LOG.append(["cleanup", self.description])
+    def cleanup(self):
+        LOG.append(["cleanup", self.description])
 
-    _registered["field"] = RecFieldFormat
-    _registered["check"] = RecCheck
+    field_class = type(prefix + "FieldFormat", (fields.AbstractFieldFormat,), {"__init__": field_init, "validated_value": validated_value})
+    check_class = type(prefix + "Check", (checks.AbstractCheck,),
+                       {"__init__": check_init, "reset": reset, "check_row": check_row, "check_at_end": check_at_end, "cleanup": cleanup})
+    return field_class, check_class
+
+
+def register():
+    """Defines the recording classes once per process."""
+    if not _registered:
+        _registered["field"], _registered["check"] = _define("Rec")
     return _registered
+
+
+def register_late():
+    """A second pair of recording classes, defined only after CIDs have already been created in this process: classes
+    resolve by name whenever they were defined."""
+    if "late_field" not in _registered:
+        _registered["late_field"], _registered["late_check"] = _define("LateRec")
 
 
 # ---------------------------------------------------------------------------------- case generation
@@ -92,6 +104,7 @@ def gen_case(rng):
     header = rng.choice([0, 0, 1, 2])
     model = RM.CidModel(kind, fields, [], header, allowed=allowed, allowed_text=allowed_text)
     model.rec_checks = checks
+    model.late_classes = False
     table = []
     for r in range(rng.randint(0, 6) + header):
         row = []
@@ -121,6 +134,9 @@ def gen_case(rng):
             row.append(cell)
         if kind == "delimited" and rng.random() < 0.1:
             row = row[:-1] if rng.random() < 0.5 and len(row) > 1 else row + ["extra"]
+        if kind == "delimited" and r < header and rng.random() < 0.4 and allowed is None:
+            # header cells are free text, e.g. a column title spanning two lines
+            row[rng.randrange(len(row))] = "two\nlines"
         table.append(row)
     return model, table
 
@@ -264,11 +280,15 @@ def check_case(ctx, model, table, plan):
     from cutplace import errors, interface
 
     register()
-    case = {"cid": dict(model.to_json(), rec_checks=model.rec_checks), "table": table, "plan": [list(p) for p in plan]}
+    case = {"cid": dict(model.to_json(), rec_checks=model.rec_checks, late_classes=getattr(model, "late_classes", False)), "table": table, "plan": [list(p) for p in plan]}
     cid = interface.Cid()
     del LOG[:]
+    late = getattr(model, "late_classes", False)
+    if late:
+        register_late()
+        cid = interface.Cid()
     try:
-        cid.read("<c20>", cid_rows(model))
+        cid.read("<c20>", cid_rows(model, "LateRec", "LateRec") if late else cid_rows(model))
     except errors.InterfaceError as error:
         ctx.case(case, True)
         ctx.violation("C20:class-not-resolved", case, "recording class registered in the process was not resolved by its name", observed=error)
@@ -280,9 +300,15 @@ def check_case(ctx, model, table, plan):
         del LOG[:]
         raw = [list(r) for r in table]
         try:
+            alternatives = []
             if api == "writer":
                 data_rows = [[c.strip(" ") if model.kind == "fixed" else c for c in r] for r in raw]
                 want = predict_write(model, data_rows)
+                if model.kind == "fixed":
+                    # whether the writer judges a fixed-width value before or after padding it to the field width is not
+                    # fixed by the protocol (it matters when blank is not an allowed character): both are accepted
+                    padded_rows = [[c.ljust(w) for c, w in zip(r, model.widths())] if len(r) == len(model.fields) else r for r in data_rows]
+                    alternatives.append(predict_write(model, padded_rows))
                 run_writer(cid, model, data_rows)
             else:
                 want = predict_read(model, raw, mode, limit)
@@ -302,7 +328,7 @@ def check_case(ctx, model, table, plan):
         ctx.count("calls.observed", len(got))
         if api == "writer" and model.kind == "fixed":
             # whether a check sees a fixed-width value before or after padding is not part of the protocol
-            for log in (got, want):
+            for log in [got, want] + alternatives:
                 for event in log:
                     if event[0] == "check_row":
                         event[2] = [v.rstrip(" ") if isinstance(v, str) else v for v in event[2]]
@@ -318,6 +344,9 @@ def check_case(ctx, model, table, plan):
             ctx.case(case, True)
             ctx.violation("C20:reset-mid-run", dict(case, run=index + 1), "a check was reset after the run had started", expected=want, observed=got)
             return
+        if rest != want and rest in alternatives:
+            ctx.count("writer.fixed-judged-after-padding")
+            continue
         if rest != want:
             ctx.case(case, True)
             k = 0
@@ -455,6 +484,10 @@ def run(ctx):
             continue
         rng = ctx.rng("case", i)
         model, table = gen_case(rng)
+        # from the second third of the run on, half of the CIDs use classes that are defined only then
+        model.late_classes = (i * 3 >= n) and rng.random() < 0.5
+        if model.late_classes:
+            ctx.count("cids.with-late-defined-classes")
         check_case(ctx, model, table, gen_plan(rng, model, table))
     for i in range(ctx.pick(12, 300)):
         if ctx.mine(i):
@@ -466,5 +499,6 @@ def replay(ctx, case):
     c = case["cid"]
     model = RM.CidModel.from_json(c)
     model.rec_checks = c["rec_checks"]
+    model.late_classes = c.get("late_classes", False)
     if "plan" in case:
         check_case(ctx, model, case["table"], [tuple(p) for p in case["plan"]])
